@@ -9,7 +9,8 @@ Rec == ndJsonDeserialize(IOEnv.TRACE)
 Judge(o) == IF o.off.panic \/ o.on.panic THEN "skip:panic"
             ELSE IF o.off.acc # o.on.acc THEN "violation:verdict-depends-on-annotate"
             ELSE IF ~o.off.acc THEN "ok:rejected-both"
-            ELSE IF ~o.off.parses \/ ~o.on.parses THEN "skip:output-does-not-parse"          \* C02's business
+            ELSE IF ~o.off.parses /\ ~o.on.parses THEN "skip:output-does-not-parse"          \* C02's business
+            ELSE IF o.off.parses # o.on.parses THEN "violation:only-one-of-the-outputs-is-python"    \* then they are not the same program
             ELSE IF o.off.erased # o.on.erased THEN "violation:outputs-differ-beyond-annotations"
             ELSE "ok"
 VARIABLE r
